@@ -381,7 +381,7 @@ class SED(object):
         sed_wav = self.wav.to(u.micron).value
 
         # If any apertures are larger than the defined max, reset to max
-        apertures[apertures > sed_apertures.max()] = sed_apertures.max() * 0.999
+        apertures[apertures > sed_apertures.max()] = sed_apertures.max()
 
         # If any apertures are smaller than the defined min, raise Exception
         if np.any(apertures < sed_apertures.min()):
@@ -402,6 +402,9 @@ class SED(object):
         # Extrapolate on either side
         apertures[np.log10(sed_wav) < log10_ap_interp.x[0]] = 10. ** log10_ap_interp.y[0]
         apertures[np.log10(sed_wav) > log10_ap_interp.x[-1]] = 10. ** log10_ap_interp.y[-1]
+
+        # Guard against rounding in the log-space interpolation
+        apertures = np.clip(apertures, sed_apertures.min(), sed_apertures.max())
 
         # Interpolate and return only diagonal elements
         return flux_interp(apertures).diagonal()
